@@ -425,6 +425,48 @@ func runRepeatCase(a args, idx int, r *h.Rand) {
 	out.Nontrivial("C06", fmt.Sprintf("repeat %q", declared))
 }
 
+// runHookTimeoutCase: a task with a timeout whose first `after` (or `before`) command outlives the timeout and does
+// not die at once on the interrupt; the next hook command starts only when the first one has really ended.
+func runHookTimeoutCase(a args, idx int) {
+	trace := filepath.Join(a.Work, fmt.Sprintf("htrace.%d", idx))
+	os.Remove(trace)
+	defer os.Remove(trace)
+	tok := func(s string) string { return fmt.Sprintf("printf '%s\\n' >> '%s'", s, trace) }
+	script := filepath.Join(a.Work, fmt.Sprintf("hook.%d.sh", idx))
+	os.WriteFile(script, []byte(fmt.Sprintf("trap '' INT\nprintf 'h1.start\\n' >> '%s'\nsleep 0.9\nprintf 'h1.end\\n' >> '%s'\n", trace, trace)), 0o755)
+	defer os.Remove(script)
+	t := task.NewTask()
+	t.Name = fmt.Sprintf("hooktimeout%d", idx)
+	to := 300 * time.Millisecond
+	t.Timeout = &to
+	t.Commands = []string{tok("c1")}
+	where := "after"
+	hooks := []string{"sh '" + script + "'", tok("h2.start")}
+	if idx%2 == 1 {
+		where = "before"
+		t.Before = hooks
+	} else {
+		t.After = hooks
+	}
+	out.Begin(fmt.Sprintf("hook-timeout#%d %s", idx, where))
+	r := newQuietRunner()
+	r.Run(t)
+	lockedFinish(r.Finish)
+	time.Sleep(1200 * time.Millisecond)
+	got := strings.Fields(h.ReadFile(trace))
+	out.Count("cases", 1)
+	pos := map[string]int{}
+	for i, g := range got {
+		pos[g] = i + 1
+	}
+	// whether the second hook command runs at all after the first was cut off is not the point; if it does, it does
+	// so after the first has ended (or been killed without writing its end mark)
+	if pos["h2.start"] > 0 && pos["h1.end"] > pos["h2.start"] {
+		out.Viol("C06", "commands-overlap/"+where+"-hook-after-timeout", fmt.Sprintf("trace %v: the second %s command started while the first (cut off by the task timeout, ignoring the interrupt) was still running", got, where), map[string]interface{}{"trace": got, "where": where})
+	}
+	out.Nontrivial("C06", fmt.Sprint("hook-timeout", idx))
+}
+
 func modeTask(a args) {
 	var cases []taskCase
 	rnd := h.NewRand(a.Seed, "task")
@@ -589,6 +631,11 @@ func modeTask(a args) {
 			r := h.NewRand(int64(rnd.U64()), "repeat")
 			if a.mine(i) {
 				runRepeatCase(a, 2000000+i, r)
+			}
+		}
+		for i := 0; i < a.n(4, 24); i++ {
+			if a.mine(i) {
+				runHookTimeoutCase(a, 3000000+i)
 			}
 		}
 	}
